@@ -38,6 +38,7 @@ type Obs struct {
 	Class     string   // rejected | ok | uncaught | fatal | terminated | exit | HOST-PANIC | HANG | DEADLOCK
 	Kind      string   // fatal kind name
 	Msg       string   // interrupt message (before the stack trace banner)
+	Trace     string   // the stack trace the VM appends to the message of a fatal error (frames by name)
 	Span      herrors.Span
 	Residue   string // "" when clean
 	PanicSite string
@@ -351,6 +352,7 @@ func classifyVM(o *Obs, i *value.VmInterrupt, ctx *pollCtx) {
 		return
 	}
 	o.Msg = cutTrace((*i).Message())
+	o.Trace = strings.TrimPrefix((*i).Message(), o.Msg)
 	func() {
 		defer func() { recover() }()
 		o.Span = (*i).GetSpan()
